@@ -24,7 +24,7 @@ pub axiom fn axiom_kb_lookup(kb: KnowledgeBase, k: &str)
 pub axiom fn axiom_kb_one_value(kb: KnowledgeBase, k: Seq<char>)
     ensures forall|v1: Vec<Rule>, v2: Vec<Rule>| #[trigger] kb_maps(kb, k, v1) && #[trigger] kb_maps(kb, k, v2) ==> v1 == v2,
             forall|v: Vec<Rule>| #[trigger] kb_maps(kb, k, v) ==> kb_contains(kb, k);
-// n clauses may be asked of kb under the key k: the predicate is there and has at least n clauses
+// n is the number of clauses of the predicate with the key k - or 0 (count_rules answers 0 for a missing predicate and while a query is being stopped)
 pub open spec fn kb_has(kb: KnowledgeBase, k: Seq<char>, n: int) -> bool {
-    n > 0 ==> kb_contains(kb, k) && forall|v: Vec<Rule>| #[trigger] kb_maps(kb, k, v) ==> n <= v@.len()
+    n > 0 ==> kb_contains(kb, k) && forall|v: Vec<Rule>| #[trigger] kb_maps(kb, k, v) ==> n == v@.len()
 }
